@@ -136,6 +136,19 @@ impl Op {
         }
     }
 
+    pub(super) fn check_map_key_parameters(
+        &self,
+        parameters: &HashMap<String, Option<Term>>,
+    ) -> Result<(), crate::error::Token> {
+        match self {
+            Op::Value(term) => term.check_map_key_parameters(parameters),
+            Op::Closure(_, ops) => ops
+                .iter()
+                .try_for_each(|op| op.check_map_key_parameters(parameters)),
+            _ => Ok(()),
+        }
+    }
+
     fn with_parameter_placeholders(self) -> Self {
         match self {
             Op::Value(term) => Op::Value(term.with_parameter_placeholders()),
